@@ -80,6 +80,10 @@ def run(pid, tier):
             # a network that answers every process data datagram with inverted bytes: the inputs are what came back,
             # the outputs stay what the application wrote
             cases[-1]["hostile_lrw"] = True
+        if rnd.random() < 0.2:
+            # one or two devices do not answer their status check in this cycle: their entries read None, nobody's entry
+            # moves (a device that holds no process data does not make the cycle fail)
+            cases[-1]["silent_status"] = sorted(rnd.sample(range(ndev), min(ndev, rnd.choice([1, 1, 2]))))
     trace = sc.run_cases("pdi", cases, binary="vsim2")
     tconst = dict(Caps="{}", MaxImage=0, MaxDevs=0, Variants="{}")
 
